@@ -18,11 +18,19 @@ def run(file, find, repl, key):
     finally:
         del api.SOURCE_OVERRIDES[file]
 if __name__ == '__main__':
-    F='cirq-core/cirq/value/digits.py'
-    run(F, 'result <<= 1', 'result <<= 2', F+':big_endian_bits_to_int')
-    run(F, 'result |= 1', 'result |= 0', F+':big_endian_bits_to_int')
-    run(F, 'range(bit_count)[::-1]', 'range(bit_count)', F+':big_endian_int_to_bits')
-    run(F, '(val >> i) & 1', '(val >> i) & 3', F+':big_endian_int_to_bits')
-    run(F, 'result *= b\n', 'result += b\n', F+':big_endian_digits_to_int')
-    run(F, 'if not (0 <= d < b):', 'if not (0 <= d <= b):', F+':big_endian_digits_to_int')
-    run(F, "if len(digits) != len(base):", "if len(digits) > len(base):", F+':big_endian_digits_to_int')
+    which = sys.argv[1] if len(sys.argv) > 1 else 'C18'
+    if which == 'C18':
+        F="cirq-core/cirq/value/digits.py"
+        run(F, 'result <<= 1', 'result <<= 2', F+':big_endian_bits_to_int')
+        run(F, 'result |= 1', 'result |= 0', F+':big_endian_bits_to_int')
+        run(F, 'range(bit_count)[::-1]', 'range(bit_count)', F+':big_endian_int_to_bits')
+        run(F, '(val >> i) & 1', '(val >> i) & 3', F+':big_endian_int_to_bits')
+        run(F, 'result *= b\n', 'result += b\n', F+':big_endian_digits_to_int')
+        run(F, 'if not (0 <= d < b):', 'if not (0 <= d <= b):', F+':big_endian_digits_to_int')
+        run(F, "if len(digits) != len(base):", "if len(digits) > len(base):", F+':big_endian_digits_to_int')
+    if which == 'C05':
+        F='cirq-core/cirq/circuits/circuit.py'; K=F+':get_earliest_accommodating_moment_index'
+        run(F, "last_conflict = max(last_conflict, *[ckey_indices.get(key, -1) for key in mop_mkeys])", "pass", K)
+        run(F, "last_conflict = max(last_conflict, *[mkey_indices.get(key, -1) for key in mop_ckeys])", "last_conflict = max(last_conflict, *[ckey_indices.get(key, -1) for key in mop_ckeys])", K)
+        run(F, "ckey_indices[key] = max(mop_index, ckey_indices.get(key, -1))", "ckey_indices[key] = mop_index", K)
+        run(F, "    mop_index = last_conflict + 1", "    mop_index = last_conflict + 1 if mop_qubits else last_conflict", K)
